@@ -17,8 +17,7 @@ Ltac explode :=
 
 Ltac wf_tac :=
   constructor; simpl;
-  [ intros x Hx; explode; reflexivity
-  | repeat constructor; simpl; intuition discriminate
+  [ repeat constructor; simpl; intuition discriminate
   | intros x f Hx Hf Hp; explode; simpl in *; explode; try discriminate; try reflexivity
   | intros t fks f Hx Hf; explode; try discriminate;
     repeat match goal with H : DropTable _ _ = DropTable _ _ |- _ => inversion H; clear H; subst end;
@@ -38,8 +37,8 @@ Ltac cons_tac :=
   | intros x Hx; explode; simpl; try exact I; intros y Hy; explode; simpl; eauto 10 ].
 
 (** * tables: name n, current object id 2n, desired object id 2n+1 *)
-Definition cur (n : nat) : table := mkT n (2 * n) [].
-Definition des (n : nat) : table := mkT n (2 * n + 1) [].
+Definition cur (n : nat) : table := mkT n (2 * n).
+Definition des (n : nat) : table := mkT n (2 * n + 1).
 
 (** * The former counterexample (finding C04-modfk-detached, repaired in dependsOn): re-point a foreign key
       of kept table 0 to created table 1, which references 0.  The cycle 0 <-> 1 makes DetachCycles detach;
